@@ -9,6 +9,11 @@ while IFS="$(printf '\t')" read -r name prop expect; do
   [ -n "$only" ] && [ "$only" != "$prop" ] && continue
   scripts/mutant.sh "selftest/mutants/$name.diff" "$prop" "$expect" | head -1 || true
 done < selftest/mutants/INDEX.tsv | tee /tmp/selftest.$$ 
+while IFS="$(printf '\t')" read -r commit prop expect; do
+  [ -z "$commit" ] && continue
+  [ -n "$only" ] && [ "$only" != "$prop" ] && continue
+  scripts/mutant.sh "revert:$commit" "$prop" "$expect" | head -1 || true
+done < selftest/reverts.tsv | tee -a /tmp/selftest.$$
 if [ -f selftest/silent/INDEX.tsv ]; then
 while IFS="$(printf '\t')" read -r name prop expect; do
   [ -z "$name" ] && continue
